@@ -13,11 +13,11 @@ RULES = {
     'J1': state.rule_J1, 'J2': state.rule_J2, 'M': state.rule_M, 'D1': state.rule_D1, 'D3': state.rule_D3,
     'HASH': state.rule_HASH, 'N3': state.rule_N3,
     'A1': ownership.rule_A1, 'A3': ownership.rule_A3, 'A4': ownership.rule_A4, 'A9': ownership.rule_A9,
-    'A10': ownership.rule_A10,
+    'A10': ownership.rule_A10, 'A11': ownership.rule_A11,
     'A2': ownership.rule_A2, 'A5': ownership.rule_A5, 'A6': ownership.rule_A6, 'A7': ownership.rule_A7, 'A8': ownership.rule_A8,
     'L': contracts.rule_L, 'K': contracts.rule_K, 'E1': contracts.rule_E1, 'E2': contracts.rule_E2, 'E3': contracts.rule_E3,
     'E6': contracts.rule_E6, 'E7': contracts.rule_E7, 'D2': contracts.rule_D2, 'E9': contracts.rule_E9, 'E4': contracts.rule_E4,
-    'E10': contracts.rule_E10,
+    'E10': contracts.rule_E10, 'E11': contracts.rule_E11,
     'C': stream.rule_C, 'POSW': stream.rule_POSW, 'B1': stream.rule_B1, 'POST': stream.rule_POST, 'RB': stream.rule_RB,
     'I': dims.rule_I, 'B3': dims.rule_B3, 'N2a': dims.rule_N2a,
     'B2': mutate.rule_B2, 'WB': mutate.rule_WB, 'N1': mutate.rule_N1, 'N2': mutate.rule_N2,
@@ -83,7 +83,7 @@ _p('C17', ['H6', 'DELEG', 'L', 'A7', 'E5'],
    explanation="Constant folding of the chunk-size expression that reaches Bits.cut in Bits.tofile; delegation and guard "
                "dominance checks; ingest feature matrix.")
 
-_p('C09', ['F1', 'F2', 'F3', 'F4', 'G1', 'N4'],
+_p('C09', ['F1', 'F2', 'F3', 'F4', 'G1', 'N4', 'A1', 'A4'],
    decided=["results never depend on cache hits, misses or evictions nor on option values in force earlier: every "
             "lru_cache'd function reaches no option read or mode-switched slot that is not part of its key",
             "nor on what was later done to previously returned objects: cached lists/Dtypes are never mutated",
@@ -115,7 +115,7 @@ _p('C11', ['H5a', 'H5b', 'H5c', 'H2'],
                "checks of the selection code.",
    exhaustive=True, floors={'H5a': 1680, 'H5b': 589000, 'H5c': 60})
 
-_p('C04', ['A1', 'A2', 'A3', 'A4', 'A5', 'A6', 'A7', 'A8', 'A9', 'A10', 'F2'],
+_p('C04', ['A1', 'A2', 'A3', 'A4', 'A5', 'A6', 'A7', 'A8', 'A9', 'A10', 'A11', 'F2'],
    decided=["immutable classes expose no operation that alters their own content (no public name on Bits/ConstBitStream "
             "has a store effect on self, through self-calls)",
             "two distinct objects, one of them mutable, never share a store: every `X._bitstore = V` site installs a "
@@ -133,7 +133,7 @@ _p('C04', ['A1', 'A2', 'A3', 'A4', 'A5', 'A6', 'A7', 'A8', 'A9', 'A10', 'F2'],
                "the resolved call graph, per concrete class).",
    floors={'A1': 60, 'A4': 25, 'A5': 100})
 
-_p('C01', ['K', 'E6', 'J2', 'A10'],
+_p('C01', ['K', 'E6', 'J2', 'A10', 'A1', 'A11'],
    decided=["the result of +, *, slicing and their reflected forms has exactly the class of the left (bitstring) operand, "
             "for each of the four classes",
             "a negative repeat count raises ValueError (guard agreement among __mul__/__imul__; __rmul__ delegates)",
@@ -163,7 +163,7 @@ _p('C06', ['C', 'POSW', 'B1', 'POST', 'RB', 'E7', 'D2', 'J1', 'J2'],
                "name, post-condition table keyed by method.",
    floors={'POSW': 25, 'B1': 18})
 
-_p('C07', ['E1', 'E2', 'E3'],
+_p('C07', ['E1', 'E2', 'E3', 'E11'],
    decided=["an empty pattern raises ValueError in find, rfind, findall, split, replace (and `in`/readto by delegation)",
             "an invalid [start, end) raises: every public function with start/end validates them through _validate_slice "
             "(or forwards them unchanged to one that does) before any other use",
@@ -208,7 +208,7 @@ _p('C13', ['HASH', 'J1', 'J2', 'D3', 'L', 'G3'],
    explanation="MRO resolution of __hash__/__eq__/__ne__ per class, field-dependence reachability, handler check of the "
                "promotion TypeError.")
 
-_p('C16', ['A1', 'A5', 'A8', 'A10', 'E6', 'K', 'C', 'L'],
+_p('C16', ['A1', 'A5', 'A8', 'A10', 'A11', 'E6', 'K', 'C', 'L'],
    decided=["operands are never modified by the non-in-place forms, including when both operands are the same object: no "
             "self store effect in the public operators of the immutable classes; mutated temporaries own fresh stores; "
             "BitStore-level binary operators and _copy build new stores",
@@ -220,7 +220,7 @@ _p('C16', ['A1', 'A5', 'A8', 'A10', 'E6', 'K', 'C', 'L'],
    explanation="Effect summaries per public operator, provenance of mutated temporaries, sibling guard agreement, "
                "result-class typing.")
 
-_p('C03', ['B2', 'WB', 'N1', 'B1'],
+_p('C03', ['B2', 'WB', 'N1', 'B1', 'E2', 'E11'],
    decided=["an invalid position, range or value raises and leaves the content as it was: in every public mutator of "
             "BitArray/BitStream no explicit raise (directly, or in a loop through a raising callee) is reachable after the "
             "first change of self (operations over an iterable of positions exempt, by the property's wording)",
